@@ -1255,6 +1255,8 @@ class Exec:
     def getattr(self, o, attr, st, ctx, n=None):
         if attr == '__class__' and isinstance(o, VObj):
             return [(st, VClass(o.cls))]
+        if attr == '__dict__' and isinstance(o, VObj) and not z3.is_expr(o.ref):
+            return [(st, VBuiltin('objdict', bound=o))]          # the instance dictionary: only .update(other.__dict__) is modelled
         if attr == '__name__' and isinstance(o, VClass):
             return [(st, VStr(s=o.qual.split('.')[-1]) if not o.qual.startswith('abstract:') else VStr())]
         if isinstance(o, VObj):
@@ -1382,6 +1384,8 @@ class Exec:
                     if attr in ci.consts:
                         return self.ev(ci.consts[attr], st.new_env(None), st, {'mod': ci.module})
             return [(st, VBuiltin(attr, bound=o.bound))]
+        if isinstance(o, VBuiltin) and o.name == 'objdict' and isinstance(o.bound, VObj):
+            return [(st, VBuiltin('objdict.' + attr, bound=o.bound))]
         if isinstance(o, VBuiltin) and isinstance(o.bound, tuple):
             return [(st, VBuiltin(attr, bound=o.bound))]
         if isinstance(o, VBuiltin):
@@ -2048,6 +2052,8 @@ class Exec:
                 if name == 'all':
                     return [(st, VBool(z3.And(*its) if its else z3.BoolVal(True)))]
                 return [(st, VBool(z3.Or(*its) if its else z3.BoolVal(False)))]
+            if name == 'object.__new__' and len(A) == 1 and isinstance(A[0], VClass):
+                return [(st, VObj(A[0].qual, 'obj!%d' % next(_fresh)))]
             if name == 'weakref.ref':
                 if isinstance(A[0], (VObj, VFunc, VClass, VExt)):
                     return [(st, VExt('weakref.ref', (A[0],)))]
@@ -2102,6 +2108,12 @@ class Exec:
                 return [(st, VExt(name, A, kws))]
             raise ToolLimit('builtin %s' % name)
         # bound methods
+        if isinstance(b, VObj) and name == 'objdict.update' and len(A) == 1 and isinstance(A[0], VBuiltin) and A[0].name == 'objdict':
+            src = A[0].bound
+            for (k, v) in list(st.heap.items()):
+                if isinstance(k, tuple) and len(k) == 2 and k[0] == src.ref:
+                    st.heap[(b.ref, k[1])] = v
+            return [(st, VNone())]
         if name == 'hook':
             hk, o = b
             if getattr(hk, 'wants_kws', False):
